@@ -95,12 +95,13 @@ impl ComputedAuthorizationItem {
         let mut privilege_assignments: HashMap<String, HashSet<String>> = HashMap::new();
 
         if let Some(input_rules) = authorization_item.rules {
-            if let (Some(privileges), Some(identities), Some(roles), Some(role_assignments)) = (
-                input_rules.privileges,
-                input_rules.identities,
-                input_rules.roles,
-                input_rules.roleAssignments,
-            ) {
+            // a missing section is an empty list: privileges still protect their paths
+            // even when no role, identity or assignment is listed
+            {
+                let privileges = input_rules.privileges.unwrap_or_default();
+                let identities = input_rules.identities.unwrap_or_default();
+                let roles = input_rules.roles.unwrap_or_default();
+                let role_assignments = input_rules.roleAssignments.unwrap_or_default();
                 let role_dict = roles
                     .into_iter()
                     .map(|role| (role.name.clone(), role))
